@@ -39,17 +39,17 @@ macro_rules
               | apply ec_cancelAllFor $hR (AllButIntr.event $hA)
               | apply ec_cancelKindFor $hR (AllButIntr.event $hA)
               | apply ec_cancelUserAll $hR (AllButIntr.event $hA)
-              | apply ec_guardSignal $hR (AllButIntr.res $hA)
-              | apply ec_signal $hR (AllButIntr.res $hA)
-              | apply ec_guardWithdraw $hR (AllButIntr.event $hA) (AllButIntr.res $hA)
+              | apply ec_guardSignal $hR (And.intro (AllButIntr.res $hA) (AllButIntr.cond $hA))
+              | apply ec_signal $hR (And.intro (AllButIntr.res $hA) (AllButIntr.cond $hA))
+              | apply ec_guardWithdraw $hR (AllButIntr.event $hA) (And.intro (AllButIntr.res $hA) (AllButIntr.cond $hA))
               | apply ec_timerAdd $hR (AllButIntr.time $hA)
               | apply ec_timerCancel $hR (AllButIntr.event $hA)
               | apply ec_timersClear $hR (AllButIntr.event $hA)
-              | apply ec_cancelAwaiteds $hR (AllButIntr.event $hA) (AllButIntr.res $hA)
-              | apply ec_poolDropHolder $hR (AllButIntr.res $hA)
-              | apply ec_dropResources $hR (AllButIntr.res $hA)
+              | apply ec_cancelAwaiteds $hR (AllButIntr.event $hA) (And.intro (AllButIntr.res $hA) (AllButIntr.cond $hA))
+              | apply ec_poolDropHolder $hR (And.intro (AllButIntr.res $hA) (AllButIntr.cond $hA))
+              | apply ec_dropResources $hR (And.intro (AllButIntr.res $hA) (AllButIntr.cond $hA))
               | apply ec_guardWaitEnter $hR
-              | apply ec_guardWaitLeave $hR (AllButIntr.event $hA) (AllButIntr.res $hA)
+              | apply ec_guardWaitLeave $hR (AllButIntr.event $hA) (And.intro (AllButIntr.res $hA) (AllButIntr.cond $hA))
               | apply ec_wakeWaiters $hR (AllButIntr.proc $hA)
               | apply ec_emit $hR
               | apply ec_modProc $hR
@@ -145,8 +145,8 @@ macro_rules
               | apply ej_pqGetLoop $hR $hA
               | apply ej_pqPutLoop $hR $hA
               | apply ej_condSignal $hR $hA
-              | apply ec_signal $hR (AllButIntr.res $hA)
-              | apply ec_guardWaitLeave $hR (AllButIntr.event $hA) (AllButIntr.res $hA)
+              | apply ec_signal $hR (And.intro (AllButIntr.res $hA) (AllButIntr.cond $hA))
+              | apply ec_guardWaitLeave $hR (AllButIntr.event $hA) (And.intro (AllButIntr.res $hA) (AllButIntr.cond $hA))
               | apply ec_cancelKindFor $hR (AllButIntr.event $hA)
               | apply ec_cancelUserAll $hR (AllButIntr.event $hA)
               | apply ec_recordPool $hR
